@@ -139,6 +139,15 @@ fn const_json<'tcx>(cx: &mut Cx<'tcx>, env: TypingEnv<'tcx>, c: &ConstOperand<'t
             o.push(("uneval", J::s(dps(tcx, uv.def))));
         }
     }
+    // reference to a static (e.g. `&ring::digest::SHA256`)
+    if let Const::Val(rustc_middle::mir::ConstValue::Scalar(rustc_middle::mir::interpret::Scalar::Ptr(ptr, _)), _) = c.const_ {
+        let (prov, _off) = ptr.into_raw_parts();
+        if let Some(ga) = tcx.try_get_global_alloc(prov.alloc_id()) {
+            if let rustc_middle::mir::interpret::GlobalAlloc::Static(did) = ga {
+                o.push(("static", J::s(dps(tcx, did))));
+            }
+        }
+    }
     if ty.is_integral() || ty.is_bool() || ty.is_char() {
         if let Some(si) = c.const_.try_eval_scalar_int(tcx, env) {
             o.push(("val", J::Int(si.to_bits_unchecked() as i128)));
